@@ -10,7 +10,7 @@
   Proofs are in `DDS.Proofs.Wire`.  Vocabulary defined there:
   * `Block.WF` (see `DDS.Props.C07`), `Block.FiniteWeights` — every bin weight the block carries
     (`Wire.payloadBins`) is a finite float (`F64.isFinite`).
-  * `Sketch.IsSpec s` — both stores of `s` are plain finite maps (`.sp`); `Sketch.spec m cp cn z` is.
+  * `Sketch.IsSparse s` — both stores of `s` are plain finite maps (`.sp`); `Sketch.spec m cp cn z` is.
   * `Sketch.FiniteVarfloats bytes` — at every position of `bytes` where `decVarfloat64` succeeds,
     its value is finite.  (The decoder hands weights to `AddWithCount` unchecked; a non-finite
     weight is outside the model, `none`, for every store kind.)
@@ -123,7 +123,7 @@ theorem decode_cut_inside_block_errors (pre : List Block) (hpre : ∀ b ∈ pre,
     ∃ e, Sketch.decodeAndMergeWith (Sketch.spec m cp cn z)
       (Wire.encBlocks pre ++ (Wire.encBlock b).take k) = some (.error e) :=
   Sketch.decodeAndMergeWith_cut_inside pre hpre hfin b hb hbf k h0 hk _
-    (Sketch.isSpec_spec m cp cn z)
+    (Sketch.isSparse_spec m cp cn z)
 
 /-- the loop-level form, for any store kind: if the complete block would not panic
     (`applyBlock ≠ none`), any strict non-empty prefix of it is refused -/
@@ -146,7 +146,7 @@ theorem decode_cut (bs : List Block) (h : ∀ b ∈ bs, b.WF) (hfin : ∀ b ∈ 
     ∨ ∃ e, Sketch.decodeLoop fuel (Sketch.spec m cp cn z) aux ((Wire.encBlocks bs).take k)
         = some (.error e) :=
   Sketch.decodeLoop_encoded_take_ne_none bs h hfin k hk fuel hfuel _ aux
-    (Sketch.isSpec_spec m cp cn z)
+    (Sketch.isSparse_spec m cp cn z)
 
 /-! ### the transcribed decoder never panics on spec stores -/
 
@@ -156,12 +156,12 @@ theorem decode_total_spec (fuel : Nat) (bytes : Bytes) (hl : bytes.length ≤ fu
     (m : Option MapId) (cp cn : Content) (z : F64) (aux : Sketch.DecAux)
     (hf : Sketch.FiniteVarfloats bytes) :
     Sketch.decodeLoop fuel (Sketch.spec m cp cn z) aux bytes ≠ none :=
-  Sketch.decodeLoop_total_spec fuel bytes _ aux hl (Sketch.isSpec_spec m cp cn z) hf
+  Sketch.decodeLoop_total_spec fuel bytes _ aux hl (Sketch.isSparse_spec m cp cn z) hf
 
 theorem decodeAndMergeWith_total_spec (bytes : Bytes) (m : Option MapId) (cp cn : Content) (z : F64)
     (hf : Sketch.FiniteVarfloats bytes) :
     Sketch.decodeAndMergeWith (Sketch.spec m cp cn z) bytes ≠ none :=
-  Sketch.decodeAndMergeWith_total_spec _ (Sketch.isSpec_spec m cp cn z) bytes hf
+  Sketch.decodeAndMergeWith_total_spec _ (Sketch.isSparse_spec m cp cn z) bytes hf
 
 /-- the hypothesis is needed: a non-finite weight is a `none` of the model
     (`0x7ff0000000000000` is `+Inf`; the varfloat payload is the bits of `count + 1`) -/
@@ -175,14 +175,14 @@ theorem applyBlocks_spec_total (bs : List Block) (hfin : ∀ b ∈ bs, b.FiniteW
     (m : Option MapId) (cp cn : Content) (z : F64) (aux : Sketch.DecAux) :
     Sketch.applyBlocks (Sketch.spec m cp cn z) aux bs ≠ none ∧
       ∀ s' aux', Sketch.applyBlocks (Sketch.spec m cp cn z) aux bs = some (.ok (s', aux')) →
-        s'.IsSpec :=
-  Sketch.applyBlocks_spec bs hfin _ aux (Sketch.isSpec_spec m cp cn z)
+        s'.IsSparse :=
+  Sketch.applyBlocks_spec bs hfin _ aux (Sketch.isSparse_spec m cp cn z)
 
 theorem decode_encoded_total_spec (bs : List Block) (h : ∀ b ∈ bs, b.WF)
     (hfin : ∀ b ∈ bs, b.FiniteWeights) (fuel : Nat) (hf : bs.length ≤ fuel)
     (m : Option MapId) (cp cn : Content) (z : F64) (aux : Sketch.DecAux) :
     Sketch.decodeLoop fuel (Sketch.spec m cp cn z) aux (Wire.encBlocks bs) ≠ none := by
   rw [Sketch.decodeLoop_encBlocks bs h fuel hf]
-  exact (Sketch.applyBlocks_spec bs hfin _ aux (Sketch.isSpec_spec m cp cn z)).1
+  exact (Sketch.applyBlocks_spec bs hfin _ aux (Sketch.isSparse_spec m cp cn z)).1
 
 end DDS.Props.C08
